@@ -660,13 +660,6 @@ def excl (ps : PState) (toks : List String) : List String × Bool :=
       else
         (tag (Excl_shortStrides t) "F24", false)
     | _, _ => ([], false)
-  | "mred" :: opn :: _ :: a :: axes :: _ =>
-    match ps.obj a, parseIntList axes, Red.opOf opn with
-    | some (_, t), some along, some _ =>
-      if Red.allAxesShortcut along t.dims then
-        (tag (!t.isMaterializable && Red.Excl_rawNotLogical t && (t.win.len : Int) != totalSize t.shape) "F44", false)
-      else (tag (Red.Excl_iterableNonView t && !t.isMasked) "F44", false)
-    | _, _, _ => ([], false)
   | ["msetat", a, v, coords] =>
     match ps.obj a, parseBit v, parseIntList coords with
     | some (_, t), some _, some _ => (tag (Excl_shortStrides t) "F24", true)
